@@ -7,6 +7,10 @@
 (*  Mode = "long"     (-simulate): texts of 150..400 code points;                                 *)
 (*  Mode = "snippets" (-simulate): text x snippet chain x terms x max_num_chars (never smaller    *)
 (*                    than the longest token: that is the recorded finding F12);                  *)
+(*  Mode = "compound" (-simulate): word-rich texts with characters whose folded / lower-cased     *)
+(*                    form has another byte length; the compound splitter gets a dictionary cut   *)
+(*                    out of the normalised words of that very text and sits behind the           *)
+(*                    byte-length-changing filters (and stemmers); one case = token run + snippet;*)
 (*  Mode = "big"      (model checking): run-length texts of up to a million bytes.               *)
 EXTENDS Tokens, TLC, Json, Randomization
 
@@ -15,6 +19,13 @@ CONSTANTS Mode, MaxLen, NA
 Ch(tok, filters, exact) == [tok |-> tok, filters |-> filters, exact |-> exact]
 \* the regular expression of the regex tokenizer: \w+|[^\w\s]+
 WordsOrSymbols == <<92, 119, 43, 124, 91, 94, 92, 119, 92, 115, 93, 43>>
+\* dictionaries of the compound splitter.  DictCp: one entry for every code point the chains can leave in a
+\* token (alphabet, lower-cased, folded): every token falls apart into its code points.  DictWords: words
+\* of one or two code points (leftmost-longest matching; a token that cannot be decomposed stays whole)
+DictCp == << <<97>>, <<98>>, <<66>>, <<55>>, <<233>>, <<101>>, <<304>>, <<105>>, <<775>>, <<73>>, <<570>>, <<11365>>, <<65>>,
+             <<20013>>, <<128512>>, <<769>>, <<32>>, <<12288>>, <<45>>, <<0>>, <<38>>, <<60>> >>
+DictWords == << <<97>>, <<98, 55>>, <<66, 55>>, <<55>>, <<101, 97>>, <<101>>, <<105, 775>>, <<73>>, <<65, 97>>, <<97, 97>>,
+                <<20013>>, <<55, 101>>, <<105>>, <<32, 97>> >>
 Chains == <<
   Ch(<<"raw">>, <<>>, TRUE),                                                                   \*  1
   Ch(<<"raw">>, << <<"lower">> >>, TRUE),                                                      \*  2
@@ -37,8 +48,21 @@ Chains == <<
   Ch(<<"simple">>, << <<"lower">>, <<"stemmer">> >>, FALSE),                                   \* 19  offsets only
   Ch(<<"simple">>, << <<"splitcompound", << <<97>>, <<66, 55>>, <<55>>, <<233, 97>> >> >> >>, FALSE),   \* 20  offsets only
   Ch(<<"regex", WordsOrSymbols>>, <<>>, FALSE),                                                \* 21  offsets only
-  Ch(<<"whitespace">>, << <<"stemmer">> >>, FALSE) >>                                          \* 22  offsets only
-SnippetChains == {6, 7, 12, 15, 18, 19}     \* (all lower-case their tokens)
+  Ch(<<"whitespace">>, << <<"stemmer">> >>, FALSE),                                           \* 22  offsets only
+  \* filters that emit or pass on offsets BEHIND filters that change the byte length of the token text
+  Ch(<<"simple">>, << <<"lower">>, <<"asciifold">>, <<"splitcompound", DictCp>> >>, FALSE),    \* 23  the "German" set-up
+  Ch(<<"simple">>, << <<"asciifold">>, <<"splitcompound", DictWords>> >>, FALSE),              \* 24
+  Ch(<<"whitespace">>, << <<"lower">>, <<"splitcompound", DictCp>> >>, FALSE),                 \* 25
+  Ch(<<"simple">>, << <<"lower">>, <<"stemmer">>, <<"splitcompound", DictCp>> >>, FALSE),      \* 26  behind a stemmer
+  Ch(<<"raw">>, << <<"lower">>, <<"asciifold">>, <<"splitcompound", DictWords>> >>, FALSE),    \* 27
+  Ch(<<"ngram", 2, 3, FALSE>>, << <<"asciifold">>, <<"lower">>, <<"splitcompound", DictCp>> >>, FALSE),  \* 28
+  Ch(<<"regex", WordsOrSymbols>>, << <<"lower">>, <<"asciifold">>, <<"splitcompound", DictCp>> >>, FALSE),  \* 29
+  Ch(<<"simple">>, << <<"asciifold">>, <<"splitcompound", DictWords>>, <<"lower">>, <<"stemmer">>, <<"removelong", 4>> >>, FALSE),  \* 30  filters behind the splitter
+  Ch(<<"simple">>, << <<"asciifold">>, <<"stemmer">> >>, FALSE),                               \* 31
+  Ch(<<"whitespace">>, << <<"lower">>, <<"asciifold">>, <<"alphanum">> >>, TRUE),              \* 32
+  Ch(<<"simple">>, << <<"asciifold">>, <<"lower">>, <<"stop", << <<97>>, <<101>>, <<105, 97>> >> >>, <<"removelong", 3>> >>, TRUE),  \* 33
+  Ch(<<"regex", WordsOrSymbols>>, << <<"lower">>, <<"stemmer">> >>, FALSE) >>                  \* 34
+SnippetChains == {6, 7, 12, 15, 18, 19, 23, 24, 25, 26, 27, 30, 31, 33}
 
 VARIABLES text, done
 gvars == <<text, done>>
@@ -69,30 +93,83 @@ NewLongText ==
   /\ \E r \in {Vec(0)} : PrintT(<<"T", RandomText(r, 150 + (r[1] % 250))>>)
   /\ done' = TRUE /\ UNCHANGED text
 
+\* the exact chain in front of the first filter whose token texts are not specified (terms and the
+\* longest token are taken from it: the splitter and the stemmer leave the offsets alone)
+RECURSIVE ExactPrefix(_, _)
+ExactPrefix(fs, k) == IF k > Len(fs) \/ fs[k][1] \in {"stemmer", "splitcompound"} THEN SubSeq(fs, 1, k - 1) ELSE ExactPrefix(fs, k + 1)
+ExactOf(ch) == Ch(ch.tok, ExactPrefix(ch.filters, 1), TRUE)
+Splits(ch) == \E k \in 1..Len(ch.filters) : ch.filters[k][1] = "splitcompound"
+SnippetChainSeq == <<6, 7, 12, 15, 18, 19, 6, 18, 23, 24, 25, 26, 27, 30, 31, 33, 23, 25>>
 NewSnippet ==
   /\ Mode = "snippets" /\ ~done
   /\ \E r \in {Vec(0)} :
        LET t == RandomText(r, 1 + (r[1] % 9))
-           ci == (<<6, 7, 12, 15, 18, 19, 6, 18>>)[1 + (r[2] % 8)]
-           exactChain == IF ci = 19 THEN 6 ELSE ci
-           toks == Analyze(t, Chains[exactChain])
-           term(k) == IF toks = <<>> \/ r[k] % 5 = 0 THEN <<122>> ELSE toks[1 + (r[k + 1] % Len(toks))][4]
-           terms == IF r[3] % 2 = 0 THEN <<term(4)>> ELSE <<term(4), term(6)>>
+           ci == SnippetChainSeq[1 + (r[2] % Len(SnippetChainSeq))]
+           exact == ExactOf(Chains[ci])
+           toks == Analyze(t, exact)
+           \* a whole token; behind a splitter mostly a piece of one (one code point, or a few)
+           piece(w, a, b) == IF ~Splits(Chains[ci]) \/ a % 4 = 0 \/ w = <<>> THEN w
+                             ELSE LET i == 1 + (b % Len(w)) IN SubSeq(w, i, IF a % 4 = 1 THEN Min2(Len(w), i + 1) ELSE i)
+           term(k) == IF toks = <<>> \/ r[k] % 5 = 0 THEN <<122>> ELSE piece(toks[1 + (r[k + 1] % Len(toks))][4], r[k + 8], r[k + 9])
+           \* (lower-cased: the snippet generator looks a token up by its lower-cased text; chains 24 and 31 do not lower-case)
+           terms == IF r[3] % 2 = 0 THEN <<MapText(term(4), Lower)>> ELSE <<MapText(term(4), Lower), MapText(term(6), Lower)>>
            max == (<<1, 2, 3, 5, 8, 30>>)[1 + (r[8] % 6)]
-       IN  IF LongestToken(t, Chains[exactChain]) > max THEN TRUE
+       IN  IF LongestToken(t, exact) > max THEN TRUE
            ELSE PrintT(<<"SN", ToJson([text |-> t, chain |-> ci, terms |-> terms, max |-> max])>>)
+  /\ done' = TRUE /\ UNCHANGED text
+
+\* Mode = "compound": words over an alphabet rich in characters whose normal form has another byte length
+\* (e-acute, E-acute, I-dot, A-stroke, sharp s -> "ss"), the dictionary = pieces of the normalised words
+\*  a  B  7  e-acute  I-dot  A-stroke  CJK  sharp-s  E-acute  a  e-acute  I-dot  space  -  e-acute  A-stroke  7  space
+CompoundAlphabet == <<97, 66, 55, 233, 304, 570, 20013, 223, 201, 97, 233, 304, 32, 45, 233, 570, 55, 32>>
+CompoundPrefixes == <<
+  Ch(<<"simple">>, << <<"lower">>, <<"asciifold">> >>, TRUE),
+  Ch(<<"simple">>, << <<"asciifold">> >>, TRUE),
+  Ch(<<"simple">>, << <<"lower">> >>, TRUE),
+  Ch(<<"whitespace">>, << <<"lower">>, <<"asciifold">> >>, TRUE),
+  Ch(<<"whitespace">>, << <<"lower">> >>, TRUE),
+  Ch(<<"simple">>, << <<"asciifold">>, <<"lower">> >>, TRUE),
+  Ch(<<"raw">>, << <<"lower">>, <<"asciifold">> >>, TRUE),
+  Ch(<<"simple">>, << <<"lower">>, <<"asciifold">> >>, TRUE) >>
+\* filters between the exact prefix and the splitter / behind the splitter
+CompoundMid == << <<>>, <<>>, <<>>, << <<"stemmer">> >> >>
+CompoundPost == << <<>>, <<>>, << <<"stemmer">> >>, << <<"removelong", 40>> >>, << <<"lower">>, <<"asciifold">> >> >>
+\* (values that are used more than once are bound by \E over a singleton: TLC evaluates a LET definition anew at every use)
+CompoundText(r) == [x \in 1..(3 + (r[1] % 28)) |-> CompoundAlphabet[1 + ((R(r, x) + (x * R(r, x + 7))) % Len(CompoundAlphabet))]]
+\* word k cut at one or two places chosen by r (the pieces go into the dictionary)
+CompoundPieces(r, w, k) ==
+  LET L == Len(w)   p == Min2(L, 1 + (R(r, k + 3) % Max2(1, L)))   q == Min2(L, p + 1 + (R(r, k + 5) % Max2(1, L)))
+  IN  SelectSeq(<<SubSeq(w, 1, p), SubSeq(w, p + 1, q), SubSeq(w, q + 1, L)>>, LAMBDA x : x # <<>>)
+RECURSIVE CompoundDict(_, _, _, _)
+CompoundDict(r, toks, k, acc) ==
+  IF k > Len(toks) THEN acc
+  ELSE CompoundDict(r, toks, k + 1, IF R(r, k + 9) % 5 = 0 THEN acc ELSE acc \o CompoundPieces(r, toks[k][4], k))
+RECURSIVE LongestText(_, _, _)
+LongestText(toks, k, m) == IF k > Len(toks) THEN m ELSE LongestText(toks, k + 1, Max2(m, Len(toks[k][4])))
+NewCompound ==
+  /\ Mode = "compound" /\ ~done
+  /\ \E r \in {Vec(0)} : \E t \in {CompoundText(r)} : \E pre \in {CompoundPrefixes[1 + (r[2] % Len(CompoundPrefixes))]} :
+     \E toks \in {Analyze(t, pre)} : \E dict \in {CompoundDict(r, toks, 1, << <<122>> >>)} :
+       LET chain == Ch(pre.tok, pre.filters \o CompoundMid[1 + (r[9] % Len(CompoundMid))] \o << <<"splitcompound", dict>> >>
+                                            \o CompoundPost[1 + (r[10] % Len(CompoundPost))], FALSE)
+           \* (lower-cased: the snippet generator looks a token up by its lower-cased text)
+           term(k) == MapText(dict[1 + (r[k] % Len(dict))], Lower)
+           terms == IF r[3] % 2 = 0 THEN <<term(4)>> ELSE <<term(4), term(6)>>
+           \* never smaller than the longest word (F12); a normalised word has at least the code points of its source
+           max == Max2(LongestText(toks, 1, 0), (<<3, 5, 8, 12, 20, 60>>)[1 + (r[8] % 6)])
+       IN  PrintT(<<"CP", ToJson([text |-> t, chain |-> chain, terms |-> terms, max |-> max])>>)
   /\ done' = TRUE /\ UNCHANGED text
 
 \* huge texts as runs <<code point, count>>: megabyte-long tokens, long runs of blanks, multi-byte runs
 BigTexts == << << <<97, 1000000>> >>, << <<20013, 300000>> >>, << <<97, 3>>, <<32, 500000>>, <<233, 4>> >>,
                << <<128512, 200000>>, <<97, 1>> >>, << <<304, 100000>>, <<45, 1>>, <<570, 100000>> >>,
                << <<97, 100000>>, <<0, 1>>, <<66, 100000>> >> >>
-BigChains == {1, 3, 5, 6, 18, 17, 19, 21}
+BigChains == {1, 3, 5, 6, 18, 17, 19, 21, 23, 25}
 NewBig ==
   /\ Mode = "big" /\ ~done
   /\ \A b \in 1..Len(BigTexts) : \A c \in BigChains : PrintT(<<"BIG", ToJson([runs |-> BigTexts[b], chain |-> c])>>)
   /\ done' = TRUE /\ UNCHANGED text
 
-GNext == Extend \/ NewRandom \/ NewLongText \/ NewSnippet \/ NewBig
+GNext == Extend \/ NewRandom \/ NewLongText \/ NewSnippet \/ NewCompound \/ NewBig
 GSpec == GInit /\ [][GNext]_gvars
 =============================================================================
